@@ -19,6 +19,7 @@ EXPLANATION = (
     "the leading zeros skipped) the bases must be sliced from an offset that is data-derived from the same k; checked at "
     "every msm call of the crate and at the calls of the one-level wrappers around it. Determinism of non-hiding "
     "commitments is decided under C07 (R6b), build / schedule independence under C18.")
+EXPLANATION += (" Shared rule: R1p on the six committers - in the per-polynomial loop nothing holding scheme data survives into the next polynomial, so a non-hiding commitment carries no stale blinding term.")
 RULE = ("instances = 13 operator impls x {result = self + [f*]other on every written field (per presence case), or pure "
         "delegation} + one alignment instance per msm site (33)")
 
@@ -135,6 +136,22 @@ def run(rep, ctx, tier):
     rep.count("msm sites", n_sites)
     rep.count("msm wrappers", n_wr)
     rep.count("scalar offsets", n_off)
-    if n_sites < 20 or n_off < 1:
-        rep.add("R12c", "floor", False, "only %d msm sites / %d offsets into coefficient vectors found (counted 33 / 2; floors 20 / 1; fail "
-                "closed)" % (n_sites, n_off), None)
+    # a commitment is the key-weighted sum of *its own* coefficients: in the per-polynomial loops of the committers nothing
+    # holding scheme data survives from one polynomial into the next (shared with C07) - a stale blinding term left in
+    # a hoisted variable makes a non-hiding commitment something else than that sum
+    from ..rules import carried as R1P
+    from .. import tables as T
+    f = ctx.facts
+    nl = 0
+    for sk in ("marlin_kzg10", "sonic_kzg10", "marlin_pst13", "ipa", "hyrax", "linear_codes"):
+        adt = T.SCHEMES[sk]["adt"]
+        b = f.find1("commit", self_adt=adt, trait=T.PC)
+        if b is None:
+            rep.add("R1p", "%s.commit:anchor" % sk, False, "commit of %s not found (fail closed)" % sk, None)
+            continue
+        a_, _c = R1P.run(rep, ctx, "%s.commit" % sk, [b.id], adt, "R1p", stop=tuple(x for x in R1P.STOP if x not in ("commit", "rand")))
+        nl += a_
+    rep.count("R1p loops", nl)
+    if n_sites < 20:
+        rep.add("R12c", "floor", False, "only %d msm sites found (counted 33, %d offsets into coefficient vectors; floor 20 sites; "
+                "fail closed)" % (n_sites, n_off), None)
